@@ -25,6 +25,7 @@ type Config struct {
 	Rules       bool // attach validation rules (subset that every field type accepts)
 	OddEntNames bool // entity names where ToCamel(name+"State") != ToCamel(name)+"State"
 	Capture     bool // allow inline names equal to an ancestor's name
+	ListMethods bool // some methods take a j5.list.v1.QueryRequest and answer one array of objects
 }
 
 func DefaultConfig() Config {
@@ -761,7 +762,43 @@ func (g *Gen) method() *Method {
 		m.HasRes = true
 		m.Res = g.reqProps()
 	}
+	if g.Cfg.ListMethods && g.chance(1, 5) {
+		g.makeListMethod(m)
+	}
 	return m
+}
+
+// makeListMethod: the request takes a j5.list.v1.QueryRequest; the response then has exactly one
+// array property, holding objects (plus, by chance, the page response).
+func (g *Gen) makeListMethod(m *Method) {
+	listRef := func(schema string) *Field {
+		return &Field{Kind: FObject, Ref: &TRef{Kind: RRef, Pkg: "j5.list.v1", Schema: schema}}
+	}
+	m.Req = append(m.Req, &Prop{Name: "query", Field: listRef("QueryRequest")})
+	if g.chance(1, 2) {
+		m.Req = append(m.Req, &Prop{Name: "page", Field: listRef("PageRequest")})
+	}
+	var res []*Prop
+	for _, p := range m.Res {
+		if p.Field.Kind != FArray {
+			res = append(res, p)
+		}
+	}
+	item := &Field{Kind: FObject, Ref: &TRef{Kind: RInlObj, Name: "ListedRow", Props: []*Prop{{Name: "rowId", Field: &Field{Kind: FString}}}}}
+	var objs []target
+	for _, t := range g.avail {
+		if t.kind == KObject {
+			objs = append(objs, t)
+		}
+	}
+	if len(objs) > 0 && g.chance(1, 2) {
+		item = &Field{Kind: FObject, Ref: g.refTo(pick(g, objs))}
+	}
+	res = append(res, &Prop{Name: "listedRows", Field: &Field{Kind: FArray, Items: item}})
+	if g.chance(1, 2) {
+		res = append(res, &Prop{Name: "pageOut", Field: listRef("PageResponse")})
+	}
+	m.HasRes, m.Res = true, res
 }
 
 func (g *Gen) topicMsgName() string {
